@@ -41,6 +41,11 @@ for _f in sorted(_glob.glob(os.path.join(os.path.dirname(os.path.abspath(__file_
         _t.setdefault("shards", 1)
         _t.setdefault("timeout", 600)
     P(_pid, **_d)
+# only properties listed in props.d/ACCEPTED (reviewed, run on the unchanged tree at several seeds) are claimed
+_acc = set(open(os.path.join(os.path.dirname(os.path.abspath(__file__)), "props.d", "ACCEPTED")).read().split())
+for _pid in PROPS:
+    if _pid not in _acc:
+        PROPS[_pid]["implemented"] = False
 
 NOT_BUILT_REASON = "check not built yet (planned per DESIGN.md section 4); nothing is claimed for it"
 
